@@ -28,8 +28,13 @@ pub fn run(case: &Value, ctx: &Ctx) -> Outcome {
             _ => {}
         }
     }
-    assert_eq!(tokens.len() as u64, case["ntok"].as_u64().unwrap());
-    let text = cli::write_text(&shape, &tokens, 6);
+    let own_line: Vec<f64> = faults.iter().enumerate().filter(|(_, f)| f["f"] == "addline").map(|(k, _)| 77.5 + k as f64).collect();
+    assert_eq!((tokens.len() + own_line.len()) as u64, case["ntok"].as_u64().unwrap());
+    let mut text = cli::write_text(&shape, &tokens, 6);
+    for v in &own_line {
+        text.extend_from_slice(format!("{v:.6}\n").as_bytes());
+    }
+    tokens.extend(own_line.iter().copied());
     out.nontrivial = Some(format!("{shape0:?}/{}", case["faults"]));
     out.tag(format!("accept:{accept}"));
     out.tag(format!("faults:{}", faults.len()));
